@@ -22,7 +22,8 @@ What is proved.
    (`setup_edges_reviewed`, `no_setup_function_in_run_phase`); the confined types against a
    syntactic escape search (`confined_no_escape`); the channel exemption is computed from the
    ordering facts about `startExecution` (`chanSync_is`, `chanSync_ordered`); copiers do not
-   return their argument (`copiers_return_fresh`).
+   return their argument (`copiers_return_fresh`) and the compiled task holds only fresh copies
+   (`compiled_task_holds_copies`).
 
 (Lockset rules of the extractor: a mutex is held from `Lock` to `Unlock` in source order, an
 `Unlock` inside a block that ends with `return` ends it for that block only, and a mutex held at
@@ -107,6 +108,14 @@ theorem confined_no_escape :
 pointer / map / slice parameters unchanged (an "empty: nothing to do, return the argument" shortcut in a
 copier makes a per-call object an alias of the shared definition). -/
 theorem copiers_return_fresh : TaskModel.Gen.Access.returnsParam = [] := by decide
+
+/-- **The compiled task holds only fresh copies**: everything `compiledTask` appends to the command,
+dependency and precondition lists of the task it hands to an activation is the result of a `DeepCopy()`
+(that is what makes `runDeferred`'s write of `cmd.Cmd`, and the bases the classification calls
+"fresh copies", private to one activation). -/
+theorem compiled_task_holds_copies : TaskModel.Gen.Access.compiledAppends =
+    [("Cmds", "‹range ‹*ast.Task›.Cmds›.DeepCopy()"), ("Cmds", "‹‹*ast.Cmd›.DeepCopy()›"),
+     ("Deps", "‹‹*ast.Dep›.DeepCopy()›"), ("Preconditions", "‹‹*ast.Precondition›.DeepCopy()›")] := by decide
 
 /-! ## the channel exemption, computed from the ordering facts -/
 
